@@ -130,6 +130,29 @@ def run_c14(R, tier, rng):
             return [str(first.dtype), kl(second), str(second.dtype), kl(third), str(third.dtype)]
         C.cmp("asarray(dtype) then asarray " + tag, "asarray-twice", nt, conv_twice, lambda: ["float64" if dt != "float64" else "float32", kl(A), dt, kl(A), dt],
               py=f"r = RunLengthArray.from_array(np.array({a!r}, dtype='{dt}')); np.asarray(r, dtype=float); np.asarray(r)")
+        # the converted array belongs to the caller: writing into it must not show in a later conversion of the same object
+        def conv_write():
+            r = RunLengthArray.from_array(A)
+            x = np.asarray(r); x[...] = x[::-1].copy()
+            if len(x): x[0] = x[-1]
+            y = np.array(r); y[...] = y[::-1].copy()
+            return [kl(np.asarray(r)), kl(r.to_array()), kl(np.asanyarray(r))]
+        C.cmp("asarray, write into the result, asarray " + tag, "asarray-write-asarray", nt, conv_write, lambda: [kl(A), kl(A), kl(A)],
+              py=f"r = RunLengthArray.from_array(np.array({a!r}, dtype='{dt}')); x = np.asarray(r); x[...] = x[::-1].copy(); x[0] = x[-1]; np.asarray(r)")
+        # binary ufuncs between arrays DERIVED from one array (they share its boundaries): content and no equal neighbours
+        if dt != "bool" and (n <= 5 or rng.random() < .3):
+            t1, t2 = ALPHA[dt][0], ALPHA[dt][-1]
+            def derived(kind):
+                r = RunLengthArray.from_array(A)
+                if kind == "and": return rl_obs((r >= t1) & (r <= t2), 2)
+                if kind == "sub": return rl_obs(r - r, 2)
+                if kind == "min": return rl_obs(np.minimum(r, r * 0 + t1), 2)
+                if kind == "eq": return rl_obs(np.equal(r * 1, r), 2)
+            with np.errstate(all="ignore"):
+                specs = {"and": lambda: spec_rl((A >= t1) & (A <= t2)), "sub": lambda: spec_rl(A - A), "min": lambda: spec_rl(np.minimum(A, A * 0 + t1)), "eq": lambda: spec_rl(np.equal(A * 1, A))}
+            for kind in ("and", "sub", "min", "eq"):
+                C.cmp(f"binary-of-derived {kind} {tag}", "canonical/binary-of-derived-operands", nt, lambda: derived(kind), specs[kind],
+                      py=f"r = RunLengthArray.from_array(np.array({a!r}, dtype='{dt}')); " + {"and": f"(r >= {t1!r}) & (r <= {t2!r})", "sub": "r - r", "min": f"np.minimum(r, r * 0 + {t1!r})", "eq": "np.equal(r * 1, r)"}[kind])
         if n <= 5 or rng.random() < .3:
             # slices of arrays whose neighbouring runs may be equal (scalar ufunc results, concatenations keep the operands' boundaries):
             # stepped slices (also step -1) promise no equal neighbours
